@@ -372,7 +372,7 @@ def slot_values(sl, dom):
     if sl.kind == "bool":
         return [None, 0, 2]
     if sl.kind == "int":
-        return [None, "0", "5", "77", "100000"] + list(dom.int_cands[:2])
+        return ([None, "0", "5", "77", "100000"] if dom.int_max >= 0 else [None]) + list(dom.int_cands[:2])
     if sl.kind == "hex":
         return [None] + list(dom.hex_cands)
     if sl.kind == "float":
@@ -386,7 +386,7 @@ def slot_weight(sl, dom):
     if sl.kind == "bool":
         return 3
     if sl.kind == "int":
-        return 4 + len(dom.int_cands)
+        return 1 + len(dom.int_cands) + (3 if dom.int_max >= 0 else 0)
     if sl.kind == "hex":
         return 1 + len(dom.hex_cands)
     if sl.kind == "float":
